@@ -286,6 +286,7 @@ class MineralRec:
         self.ref = []  # reference-model copies of every snapshot: (A, f, sha)
         self.completed = 0  # completed updates
         self.strain = 0.0  # accumulated strain (reference model)
+        self.rotation = 0.0  # accumulated rigid rotation angle (rad)
         self.frozen_regime = spec["regime"]
         self.restored = False
         self.diffusion_strain = 0.0  # strain accumulated in matrix_diffusion regime
@@ -417,6 +418,12 @@ class World:
         v = np.array([E.max_principal_rate(flow.base(t, path.base(t))) for t in ts])
         h = (tau1 - tau0) / (2 * n)
         return abs(h / 3 * (v[0] + v[-1] + 4 * v[1:-1:2].sum() + 2 * v[2:-1:2].sum()))
+
+    def rotation_over(self, flow, path, tau0, tau1):
+        n = 1 if flow.constant else 16
+        ts = np.linspace(tau0, tau1, n + 1)
+        v = [E.spin_rate(flow.base(t, path.base(t))) for t in ts]
+        return abs(tau1 - tau0) * float(np.mean(v))
 
     def ref_F(self, flow, path, tau0, tau1, F_in):
         """Independent high-accuracy integration of dF/dtau = L~(tau) F."""
@@ -634,6 +641,7 @@ class World:
             mrec.completed += 1
             eps = self.strain_over(flow, path, op["t0"], op["t1"])
             mrec.strain += eps
+            mrec.rotation += self.rotation_over(flow, path, op["t0"], op["t1"])
             rec["strain"] = eps
             if self._diffusive(rec, use_regime, rf, op):
                 mrec.diffusion_strain += eps
@@ -724,16 +732,19 @@ class World:
                 if len(m.obj.orientations) == nb[0] + 1 and len(m.obj.fractions) == nb[1] + 1:
                     m.completed += 1
                     m.strain += eps
+                    m.rotation += self.rotation_over(flow, path, op["t0"], op["t1"])
                     if (rf is None and int(regimes_before[m.idx]) == md) or (
                             rf is not None and md in self._regimes_in(rf, op["t0"], op["t1"])):
                         m.diffusion_strain += eps
         if rec["status"] == "ok":
             eps = self.strain_over(flow, path, op["t0"], op["t1"])
             rec["strain"] = eps
+            rot = self.rotation_over(flow, path, op["t0"], op["t1"])
             for m in ms:
                 m.F = np.array(F_out, copy=True)
                 m.completed += 1
                 m.strain += eps
+                m.rotation += rot
                 md = int(pydrex.DeformationRegime.matrix_diffusion)
                 if (rf is None and int(regimes_before[m.idx]) == md) or (
                         rf is not None and md in self._regimes_in(rf, op["t0"], op["t1"])):
